@@ -3,6 +3,7 @@ CONSTANTS
   MaxLen = 4
   Adaptors = {"enumerate", "reverse"}
   Cats = {"lvalue", "const", "rvalue"}
+  Handoffs = {"direct", "copy", "move", "assign"}
 INVARIANTS VisitsAll WritesLand NoWritesElsewhere TempOutlivesLoop Emit
 PROPERTY Terminates
 CHECK_DEADLOCK FALSE
